@@ -163,6 +163,18 @@ def run(prop, tier, seed, replay=None):
         raise InfraError("forbidden construct or axiom in the proof base: %s %s" % (forbidden[:5], bad_axioms[:5]))
     timing["audit_s"] = round(time.time() - t, 2)
 
+    # ---- 3b. thorough tier: independent re-check of the compiled property module by leanchecker
+    recheck = None
+    if ctx.thorough and ok_b:
+        t = time.time()
+        import subprocess
+        p_ = subprocess.run(["lake", "env", "leanchecker", "Theorems." + prop], cwd=LEAN, capture_output=True, text=True)
+        recheck = {"cmd": "cd lean && lake env leanchecker Theorems.%s" % prop, "exit": p_.returncode, "seconds": round(time.time() - t, 1)}
+        if p_.returncode != 0:
+            raise InfraError("leanchecker rejects Theorems.%s:\n%s" % (prop, (p_.stdout + p_.stderr)[-2000:]))
+        timing["leanchecker_s"] = recheck["seconds"]
+        ctx.extra["leanchecker"] = recheck
+
     # ---- 4. correspondence
     t = time.time()
     ops = []
